@@ -35,6 +35,8 @@ var c13Wheres = []string{
 	"key in ('k001', 'k003', 'zz')", "key = 'k002'", "key ^= 'k'", "key ^= 'k00'",
 	"key >= 'k002' & key < 'k006'", "key > 'k003'", "key <= 'k004'",
 	"value != 'x'", "true", "key = 'a' & key = 'b'", "false",
+	// selective full scans: a Batch call reads on through several chunks with a few rows already matched
+	"value = '2'", "int(value) > 4",
 	"key ^= 'k' & int(value) > 2", "key in ('k001', 'k002') | key ^= 'k00'",
 }
 
